@@ -56,7 +56,8 @@ Inductive pc :=
 | DLoad (v : Z).             (* ~Accessor of the temporary of holder = take(id): finish_released; next: head load *)
 
 (* prog: the operations still to run (head = current); results: newest first *)
-Record thread := { prog : list op; tpc : pc; held : list id; taken : list id; accs : list acc; results : list res }.
+Record thread := { prog : list op; tpc : pc; held : list id; taken : list id; accs : list acc; results : list res;
+  fbase : Z (* deallocate: the version of the FIRST head it loaded (used only if the bump is hoisted out of the loop) *) }.
 
 Record shared := {
   hv : Z; hk : Z; nxt : list Z; nv : Z; sver : list Z; ids : list id;
@@ -97,26 +98,30 @@ Definition id_eqb (a b : id) : bool := (fst a =? fst b) && (snd a =? snd b).
 Definition mem_id (a : id) (l : list id) : bool := existsb (id_eqb a) l.
 
 Definition mk_thread (p : list op) : thread :=
-  {| prog := p; tpc := Idle; held := []; taken := []; accs := []; results := [] |}.
+  {| prog := p; tpc := Idle; held := []; taken := []; accs := []; results := []; fbase := 0 |}.
 Definition init_shared (c : cfg) : shared :=
   {| hv := tail c; hk := 0; nxt := []; nv := 0; sver := []; ids := []; fl := []; boxed := []; wins := []; miss := false; nfin := 0 |}.
 Definition init (c : cfg) (progs : list (list op)) : st := {| sh := init_shared c; threads := map mk_thread progs |}.
 
 Definition goto (th : thread) (p : pc) : thread :=
-  {| prog := prog th; tpc := p; held := held th; taken := taken th; accs := accs th; results := results th |}.
+  {| prog := prog th; tpc := p; held := held th; taken := taken th; accs := accs th; results := results th; fbase := fbase th |}.
 (* the current operation returns r *)
 Definition ret (th : thread) (h t : list id) (r : res) : thread :=
-  {| prog := tl (prog th); tpc := Idle; held := h; taken := t; accs := accs th; results := r :: results th |}.
+  {| prog := tl (prog th); tpc := Idle; held := h; taken := t; accs := accs th; results := r :: results th; fbase := fbase th |}.
 (* same operation goes on at pc p with these kept / taken lists *)
 Definition cont (th : thread) (p : pc) (h t : list id) : thread :=
-  {| prog := prog th; tpc := p; held := h; taken := t; accs := accs th; results := results th |}.
+  {| prog := prog th; tpc := p; held := h; taken := t; accs := accs th; results := results th; fbase := fbase th |}.
+(* deallocate() loaded the head for the first time: its version is k *)
+Definition with_base (th : thread) (k : Z) : thread :=
+  {| prog := prog th; tpc := tpc th; held := held th; taken := taken th; accs := accs th; results := results th;
+     fbase := k |}.
 Definition set_accs (th : thread) (a : list acc) : thread :=
-  {| prog := prog th; tpc := tpc th; held := held th; taken := taken th; accs := a; results := results th |}.
+  {| prog := prog th; tpc := tpc th; held := held th; taken := taken th; accs := a; results := results th; fbase := fbase th |}.
 Definition push_res (th : thread) (r : res) : thread :=
-  {| prog := prog th; tpc := tpc th; held := held th; taken := taken th; accs := accs th; results := r :: results th |}.
+  {| prog := prog th; tpc := tpc th; held := held th; taken := taken th; accs := accs th; results := r :: results th; fbase := fbase th |}.
 (* the current operation is over, its result was recorded before *)
 Definition pop_op (th : thread) : thread :=
-  {| prog := tl (prog th); tpc := Idle; held := held th; taken := taken th; accs := accs th; results := results th |}.
+  {| prog := tl (prog th); tpc := Idle; held := held th; taken := taken th; accs := accs th; results := results th; fbase := fbase th |}.
 
 Definition set_head (s : shared) (v k : Z) (f : list Z) : shared :=
   {| hv := v; hk := k; nxt := nxt s; nv := nv s; sver := sver s; ids := ids s; fl := f; boxed := boxed s;
@@ -203,13 +208,13 @@ Definition tstep (c : cfg) (s : shared) (th : thread) : option (shared * thread)
       match nth_error (held th) i with
       | None => Some (s, ret th (held th) (taken th) RSkip)
       | Some (v, _) =>                                                              (* load head (acquire) *)
-        Some (s, cont th (FStore v (hv s) (hk s)) (remove_nth i (held th)) (taken th))
+        Some (s, with_base (cont th (FStore v (hv s) (hk s)) (remove_nth i (held th)) (taken th)) (hk s))
       end
     | OFinish :: _ =>
       match taken th with
       | [] => Some (s, ret th (held th) (taken th) RSkip)
       | (v, _) :: r =>                                                              (* deallocate(id.value) *)
-        Some (inc_fin s, cont th (FStore (finish_value v) (hv s) (hk s)) (held th) r)
+        Some (inc_fin s, with_base (cont th (FStore (finish_value v) (hv s) (hk s)) (held th) r) (hk s))
       end
     | OTake k :: _ =>
       match nth_error (ids s) k with
@@ -251,11 +256,11 @@ Definition tstep (c : cfg) (s : shared) (th : thread) : option (shared * thread)
     | OAcDrop h :: _ =>
       let old := get_acc (accs th) h in
       if acc_dtor_fires old then
-        Some (inc_fin s, cont (set_accs th (set_acc h empty_acc (accs th))) (FStore (dtor_value old) (hv s) (hk s))
-                              (held th) (taken th))
+        Some (inc_fin s, with_base (cont (set_accs th (set_acc h empty_acc (accs th)))
+                                         (FStore (dtor_value old) (hv s) (hk s)) (held th) (taken th)) (hk s))
       else Some (s, ret th (held th) (taken th) RAcc)
     end
-  | DLoad v => Some (s, goto th (FStore v (hv s) (hk s)))    (* deallocate: load head (acquire) *)
+  | DLoad v => Some (s, with_base (goto th (FStore v (hv s) (hk s))) (hk s))    (* deallocate: load head (acquire) *)
   | ALoadNext cv ck =>                                   (* _free_next_value[cv].load(relaxed) *)
     Some (s, goto th (ACas cv ck (getz (nxt s) (pop_link_index cv))))
   | ACas cv ck nx =>                                     (* free_head().compare_exchange_weak(cur, new) *)
@@ -272,7 +277,10 @@ Definition tstep (c : cfg) (s : shared) (th : thread) : option (shared * thread)
     Some (set_nxt s (push_link_index v) (push_link_value cv), goto th (FCas v cv ck))
   | FCas v cv ck =>                                      (* free_head().compare_exchange_weak(cur, id) *)
     if (hv s =? cv) && (hk s =? ck) then
-      Some (set_head s v (wrapk c (push_new_version ck)) (v :: fl s), finish_free th)
+      (* id.version = <head>.version + 1: from the head compared in THIS iteration if the assignment sits inside the
+         retry loop (push_bump_in_loop = 1), from the first head loaded if it was hoisted out of it *)
+      Some (set_head s v (wrapk c (push_new_version (if push_bump_in_loop =? 1 then ck else fbase th))) (v :: fl s),
+            finish_free th)
     else Some (s, goto th (FStore v (hv s) (hk s)))
   | ESlot v k =>                                         (* slot.version.store(id.version); object.emplace *)
     Some (set_box s (setz (sver s) (emplace_slot_index v) (emplace_version k)) (ids s ++ [(v, k)])
